@@ -261,6 +261,55 @@ def evalApprox (op : String) (a : List Tok) (rhs : List Tok) : Option (Bool × S
       let c : FBiquadCfg Float := ⟨f64 b0, f64 b1, f64 b2, f64 a1, f64 a2, f64 u, f64 mn, f64 mx⟩
       let ((m0, m1), my) := fbiquadUpdate2 bops64 c (f64 s0, f64 s1) (f64 x0)
       some (f64eq m0 (f64 p) && f64eq m1 (f64 q) && f64eq my (f64 y), s!"{showList [b64 m0, b64 m1]} {b64 my}")
+  | "f_pidrepr", [.int w, .int q, .int period, .int order, .list gains, .list limits, .int bs, .int ys, .int setp, .int mn, .int mx],
+      [.list r, .int ru, .int rmn, .int rmx] =>
+    -- `Pid::<f64>::build::<C, f64>`: C = f64 (w = 0) or the fixed-point type (w, q)
+    let (g, lim) := pidReprArgs (gains.map fOfBits) (limits.map fOfBits) (fOfBits bs)
+    let off := -(fOfBits setp) * fOfBits ys
+    let fmn := fOfBits mn * fOfBits ys
+    let fmx := fOfBits mx * fOfBits ys
+    if w == 0 then
+      let (c0, c1, c2, c3, c4) := pidBuild floatOps (fun x => x) (0 : Float) (· + ·) (fun k x => Float.ofInt k * x)
+        (fOfBits period) order.toNat g lim
+      let m := [c0, c1, c2, c3, c4]
+      let e := r.map fOfBits
+      let sc := m.foldl (fun acc v => if v.abs > acc then v.abs else acc) 1e-300
+      let okc := m.length == e.length && (List.zip m e).all fun (x, y) => (x.isNaN && y.isNaN) || x == y || (x - y).abs ≤ 1e-12 * sc
+      let u := off * (c0 + c1 + c2)
+      let eu := fOfBits ru
+      let oku := (u.isNaN && eu.isNaN) || u == eu || (u - eu).abs ≤ 1e-11 * (off.abs * sc + 1e-300)
+      some (okc && oku && f64eq fmn (fOfBits rmn) && f64eq fmx (fOfBits rmx),
+        s!"{showList (m.map fToBits)} {fToBits u} {fToBits fmn} {fToBits fmx}")
+    else
+      -- the harness emits integer builds only when every quantised value is far from a rounding tie, so the
+      -- coefficients are compared exactly
+      let (c0, c1, c2, c3, c4) := pidBuild floatOps (quantizeInt w.toNat q.toNat) (0 : Int) (· + ·) (fun k x => k * x)
+        (fOfBits period) order.toNat g lim
+      let m := [c0, c1, c2, c3, c4]
+      let cfg : BiquadCfg := ⟨c0, c1, c2, c3, c4, 0, minI w.toNat, maxI w.toNat⟩
+      let u := biquadSetInputOffset .checked w.toNat q.toNat cfg (fToInt w.toNat off)
+      let okc := m.length == r.length && (List.zip m r).all fun (x, y) => (x - y).natAbs ≤ 3 + x.natAbs / 2 ^ 48
+      let oku := match u with
+        | .ok v => (v - ru).natAbs ≤ 8 + v.natAbs / 2 ^ 40
+        | .error _ => false
+      some (okc && oku && fToInt w.toNat fmn == rmn && fToInt w.toNat fmx == rmx,
+        s!"{showList m} {rshow toString u} {fToInt w.toNat fmn} {fToInt w.toNat fmx}")
+  | "f_ba", [.int w, .int q, .list [b0, b1, b2, a0, a1, a2], .int bs, .int ys, .int u, .int mn, .int mx],
+      [.list r, .int ru, .int rmn, .int rmx] =>
+    -- `BiquadRepr::Ba(..).build(period, b_scale, y_scale)`
+    let s := fOfBits bs
+    let ba : BA Float := ((fOfBits b0 * s, fOfBits b1 * s, fOfBits b2 * s), (fOfBits a0, fOfBits a1, fOfBits a2))
+    let y := fOfBits ys
+    if w == 0 then
+      let (c0, c1, c2, c3, c4) := biquadFromBa floatOps (fun x => x) ba
+      let m := [c0, c1, c2, c3, c4]
+      some ((m.map fToBits) == r && f64eq (fOfBits u * y) (fOfBits ru) && f64eq (fOfBits mn * y) (fOfBits rmn) && f64eq (fOfBits mx * y) (fOfBits rmx),
+        s!"{showList (m.map fToBits)}")
+    else
+      let (c0, c1, c2, c3, c4) := biquadFromBa floatOps (quantizeInt w.toNat q.toNat) ba
+      let m := [c0, c1, c2, c3, c4]
+      some (m == r && fToInt w.toNat (fOfBits u * y) == ru && fToInt w.toNat (fOfBits mn * y) == rmn && fToInt w.toNat (fOfBits mx * y) == rmx,
+        s!"{showList m} {fToInt w.toNat (fOfBits u * y)}")
   | "f_quantize", [.int w, .int q, .int v], [.int r] =>
     let m := quantizeInt w.toNat q.toNat (fOfBits v)
     some (m == r, toString m)
